@@ -67,6 +67,8 @@ BASE_PROGRAMS = [
     "\t.word <1+<2*3> >, < <4> >\n\tmov #<5+<6> >, r0\n\tclr <tb+2>(r1)\ntb:\t.word 0, 0, 0\n",
 ]
 BASE_PROGRAMS += [
+    # implicit word lists that start with a constant; names that contain or end in words the parser treats specially
+    "tblend = 1234\nbufend = 2\nx.end = 3\nend1 = 4\nmovx = 5\nr0x = 6\n\t.word tblend\n\t.word bufend, 1\n\t.word x.end\n\t.word end1, tblend\n\t.word movx\n\t.word r0x, r0x+1\n\tmov #tblend, r0\n\t.word 7\n",
     "t:\t.word 1, ., .+2\n\t.word 2, <.-t>, t\n\t.dw 3, .\n",
     "\t.byte 1, 2\n\t.db 3, 4\n\t.word 100, 200\n\t.dw 300\n\tbhis .+2\n\tblo .+2\n\tclrd ac0\n\ttstd (r1)\n\tldd (r2), ac1\n\tstd ac1, (r3)\n",
     "\tmov #<2+3>*4, r0\n\tmov <2+3>*4, r0\n\tclr <4>(r2)\n\tbr <.+4>\n\tnop\n\tsob r0, <.-2>\n\t.blkb <1+2>\n\t.even\n",
@@ -284,6 +286,10 @@ def implicit_ok(toks, i):
     first = toks[j]
     if first[0] == "num" or first[0] == "go":
         return True
+    if first[0] == "sym":
+        # a list that starts with a constant defined above it ('name = ...' earlier in the same file) is an implicit word list too
+        before = "".join(t[1] for t in toks[:i])
+        return bool(re.search(r"(?mi)^[ \t]*%s[ \t]*==?[^=]" % re.escape(first[1]), before))
     return False
 
 
